@@ -1,5 +1,5 @@
 (* C01 — Route selection follows the documented pattern semantics. Property theorems only. *)
-From Rux Require Import Base Str Norm Rx RxParse Pattern Pat PatFacts Cache Table TableFacts PatTable SelectFacts RoundTrip.
+From Rux Require Import Base Str Norm Rx RxParse Pattern Pat PatFacts Cache Table TableFacts PatTable SelectFacts RoundTrip TableLink.
 
 (* For every table of grammar-level routes (static paths and patterns: literal text, {name}, {name:regex},
    nested optional tails; any method sets; wf_sroute = '/'-free duplicate-free methods, rooted paths, variable
@@ -55,9 +55,30 @@ Theorem C01_text_link : forall p ms, printable p = true ->
                   match_regex (CRx (pat_rx (to_pat p)) (List.length (d_names d))) (d_names d) path).
 Proof. exact roundtrip_printable. Qed.
 
+(* the string-level router - what Router.AddRoute does with the pattern TEXT (compile_dyn + regex parser; the model that is
+   executed against the implementation) - selects exactly what the documented rule prescribes, for every table of
+   well-formed entries: static routes and printable patterns (TableLink.wf_entry), any method sets *)
+Theorem C01_string_level_selection : forall o es rt m path, o_caching o = false -> Forall wf_entry es ->
+  reg_routes (new_router o) (map entry_rdef es) = Ok rt -> no_slash m -> rooted path ->
+  sel (fst (match_ rt m path)) = spec_select (map entry_sroute es) m path.
+Proof. exact string_level_selection. Qed.
+(* and it answers every lookup - route id AND parameters, with any options, cache included - like the grammar-level router *)
+Theorem C01_string_level_lookup : forall o es rt m path, Forall wf_entry es ->
+  reg_routes (new_router o) (map entry_rdef es) = Ok rt ->
+  fst (match_ rt m path) = fst (match_ (build o (map entry_sroute es)) m path) /\
+  rt_equiv (snd (match_ rt m path)) (snd (match_ (build o (map entry_sroute es)) m path)).
+Proof. exact string_level_lookup. Qed.
+(* registration of such a table always succeeds *)
+Theorem C01_string_level_registers : forall o es, Forall wf_entry es ->
+  exists rt, reg_routes (new_router o) (map entry_rdef es) = Ok rt /\ rt_equiv rt (build o (map entry_sroute es)).
+Proof. exact reg_routes_equiv. Qed.
+
 Print Assumptions C01_selection.
 Print Assumptions C01_sound.
 Print Assumptions C01_complete.
 Print Assumptions C01_cached.
 Print Assumptions C01_paths_rooted.
 Print Assumptions C01_text_link.
+Print Assumptions C01_string_level_selection.
+Print Assumptions C01_string_level_lookup.
+Print Assumptions C01_string_level_registers.
